@@ -340,6 +340,35 @@ func TestC06Bindings(t *testing.T) {
 				classes["as-name-spelled-like-a-binding"] = true
 			}
 		}
+		// the shorthand `project name`: a name-only project column is the
+		// expression `name`, so an unquoted binding name denotes the binding
+		if len(tenv.Bindings) > 0 && rapid.IntRange(0, 3).Draw(rt, "projectbinding") == 0 {
+			b := tenv.Bindings[rapid.IntRange(0, len(tenv.Bindings)-1).Draw(rt, "projof")]
+			shadowsCol := false
+			for _, c := range s {
+				if c.Name == b.Name {
+					shadowsCol = true
+				}
+			}
+			if b.Name != "true" {
+				id := gen.Ident{Name: b.Name}
+				kid := tenv.ForceQuote["k"]
+				kcol := gen.Ident{Name: "k", Quoted: kid}
+				hasK := false
+				for _, c := range s {
+					if c.Name == "k" && !c.Unusable {
+						hasK = true
+					}
+				}
+				if hasK && b.Name != "k" {
+					q.Ops = append(q.Ops, &gen.Project{Cols: []*gen.Col{{Name: &id}, {Name: &kcol}}})
+					s = gen.Schema{{Name: b.Name, T: b.T}, {Name: "k", T: gen.TInt}}
+					tenv.Uses["project-shorthand"]++
+					classes["project-shorthand-of-a-binding"] = true
+					_ = shadowsCol
+				}
+			}
+		}
 		for i, n := 0, rapid.IntRange(1, 5).Draw(rt, "nops"); i < n; i++ {
 			kind := rapid.SampledFrom(gen.OpKinds).Draw(rt, "kind")
 			if kind == "as" || kind == "render" {
@@ -379,7 +408,7 @@ func TestC06Bindings(t *testing.T) {
 			return
 		}
 		interesting := classes["let-shadows-parameter"] || classes["let-redefined"] || classes["let-value:reference"] || classes["let-value:compound-over-reference"] ||
-			classes["let-value:signed"] || classes["let-value:compound"] || classes["let-value:compound-parenthesised"] || classes["let-value:built-in-call"] || classes["use-in-join-or-row-count"] || classes["alias-spelled-like-a-binding"] || classes["as-name-spelled-like-a-binding"]
+			classes["let-value:signed"] || classes["let-value:compound"] || classes["let-value:compound-parenthesised"] || classes["let-value:built-in-call"] || classes["use-in-join-or-row-count"] || classes["alias-spelled-like-a-binding"] || classes["as-name-spelled-like-a-binding"] || classes["project-shorthand-of-a-binding"]
 		if nuses > 0 && interesting {
 			st.NonTrivial(gen.Shape(prog))
 			st.SampleHashed("program", c.Src, func() any { return map[string]any{"pql": c.Src, "params": c.Params, "sql": info.SQL} })
